@@ -189,6 +189,60 @@ impl Prop for C18 {
                 }
             }}}}
         }
+        // Long-lived stores: every sequence of up to three single-setter calls (each touching ONE flag, the others
+        // never re-set), a validation after every call, for a trusted certificate in each validity state; then
+        // random longer sequences over every directory state.
+        let setters = ["setskip 0", "setskip 1", "settime 0", "settime 1", "settrust 0", "settrust 1"];
+        for tm in 0..3u8 {
+            for a in 0..setters.len() {
+                for b2 in 0..=setters.len() {
+                    for c2 in 0..=setters.len() {
+                        if b2 == setters.len() && c2 != setters.len() {
+                            continue;
+                        }
+                        // a failed validation writes the certificate to rejected/ and thereby decides every later
+                        // answer, so each setter sequence runs with a validation (0) before and after every call,
+                        // (1) after every call only, (2) at the very end only
+                        for variant in 0..3 {
+                            out.push("reset".to_string());
+                            out.push(format!("store 1 0 1 1 2048 {}", tm));
+                            if variant == 0 {
+                                out.push("check basic256sha256 1 1".to_string());
+                            }
+                            for i in [a, b2, c2] {
+                                if i < setters.len() {
+                                    out.push(setters[i].to_string());
+                                    if variant < 2 {
+                                        out.push("check basic256sha256 1 1".to_string());
+                                    }
+                                }
+                            }
+                            if variant == 2 {
+                                out.push("check basic256sha256 1 1".to_string());
+                            }
+                        }
+                    }
+                }
+            }
+        }
+        for _ in 0..(n * 2) {
+            out.push("reset".to_string());
+            let rd = rng.chance(9, 10) as u8;
+            let td = rng.chance(9, 10) as u8;
+            let ir = if rd == 1 { rng.chance(1, 10) as u8 } else { 0 };
+            let tf = if td == 1 { rng.weighted(&[4, 6, 1, 1]) as u8 } else { 0 };
+            out.push(format!("store {} {} {} {} {} {}", rd, ir, td, tf, rng.pick(&BITS), rng.weighted(&[2, 1, 1])));
+            let len = rng.range(3, 10);
+            let first_check = rng.range(0, len); // no validation before this step (a failed one fills rejected/)
+            for step in 0..len {
+                if step < first_check || rng.chance(1, 2) {
+                    out.push(rng.pick(&setters).to_string());
+                } else {
+                    let pol = POLICIES[1 + rng.below(5) as usize];
+                    out.push(format!("check {} {} {}", pol, rng.weighted(&[2, 4, 1, 1]), rng.weighted(&[2, 4, 1])));
+                }
+            }
+        }
         for _ in 0..n {
             out.push("reset".to_string());
             for i in 0..4 {
@@ -218,11 +272,26 @@ impl Prop for C18 {
     }
 
     fn runner(&self) -> Box<dyn Runner> {
-        Box::new(R)
+        Box::new(R { live: None })
     }
 }
 
-struct R;
+struct R {
+    live: Option<LiveStore>,
+}
+
+/// A long-lived store of the current case (`store` op) and the flags AS LAST SET INDIVIDUALLY by the
+/// case's setter calls (the oracle's own bookkeeping, from the property text: the configured flags)
+struct LiveStore {
+    store: CertificateStore,
+    _guard: CleanUp,
+    bits: u32,
+    bi: usize,
+    tm: usize,
+    tu: bool,
+    sv: bool,
+    ct: bool,
+}
 
 static COUNTER: AtomicUsize = AtomicUsize::new(0);
 
@@ -376,6 +445,121 @@ impl Runner for R {
                 };
                 (res, v)
             }
+            ["store", rd, ir, td, tf, bits, tm] => {
+                let flag = |s: &str| match s {
+                    "0" => Some(false),
+                    "1" => Some(true),
+                    _ => None,
+                };
+                let (Some(rd), Some(ir), Some(td), Ok(tf), Ok(bits), Ok(tm)) =
+                    (flag(rd), flag(ir), flag(td), tf.parse::<u8>(), bits.parse::<u32>(), tm.parse::<usize>())
+                else {
+                    return bad();
+                };
+                let Some(bi) = BITS.iter().position(|b| *b == bits) else { return bad() };
+                if tf > 3 || tm > 2 || (ir && !rd) || (tf != 0 && !td) {
+                    return bad();
+                }
+                let (cert, der) = &certs().certs[bi][tm];
+                let (_, other_der) = &certs().certs[bi][(tm + 1) % 3];
+                let dir = fixtures::scratch_dir().join("c18").join(format!("live{}", COUNTER.fetch_add(1, Ordering::SeqCst)));
+                let _ = std::fs::remove_dir_all(&dir);
+                std::fs::create_dir_all(&dir).unwrap();
+                // flags are those of `CertificateStore::new`: nothing is set here
+                let store = CertificateStore::new(&dir);
+                let name = CertificateStore::cert_file_name(cert);
+                if rd {
+                    std::fs::create_dir_all(store.rejected_certs_dir()).unwrap();
+                }
+                if td {
+                    std::fs::create_dir_all(store.trusted_certs_dir()).unwrap();
+                }
+                if ir {
+                    std::fs::write(store.rejected_certs_dir().join(&name), der).unwrap();
+                }
+                match tf {
+                    1 => std::fs::write(store.trusted_certs_dir().join(&name), der).unwrap(),
+                    2 => std::fs::write(store.trusted_certs_dir().join(&name), other_der).unwrap(),
+                    3 => std::fs::write(store.trusted_certs_dir().join(&name), b"this is not a certificate").unwrap(),
+                    _ => {}
+                }
+                // documented defaults of a new store: check_time on, skip_verify off, trust_unknown off
+                self.live = Some(LiveStore { store, _guard: CleanUp(dir), bits, bi, tm, tu: false, sv: false, ct: true });
+                ("ok".to_string(), Verdict::Ok)
+            }
+            [setter @ ("setskip" | "settime" | "settrust"), v] => {
+                let (Some(l), Some(v)) = (self.live.as_mut(), match *v { "0" => Some(false), "1" => Some(true), _ => None }) else { return bad() };
+                // exactly ONE setter is called; the other flags are never re-set
+                match *setter {
+                    "setskip" => {
+                        l.store.set_skip_verify_certs(v);
+                        l.sv = v;
+                    }
+                    "settime" => {
+                        l.store.set_check_time(v);
+                        l.ct = v;
+                    }
+                    _ => {
+                        l.store.set_trust_unknown_certs(v);
+                        l.tu = v;
+                    }
+                }
+                ("ok".to_string(), Verdict::Ok)
+            }
+            ["check", pol, ho, ur] => {
+                let (Some(l), Some(policy), Ok(ho), Ok(ur)) = (self.live.as_ref(), policy(pol), ho.parse::<u8>(), ur.parse::<u8>()) else { return bad() };
+                if ho > 3 || ur > 2 {
+                    return bad();
+                }
+                let (cert, der) = &certs().certs[l.bi][l.tm];
+                let name = CertificateStore::cert_file_name(cert);
+                let rej_path = l.store.rejected_certs_dir().join(&name);
+                let tr_path = l.store.trusted_certs_dir().join(&name);
+                let host = match ho {
+                    0 => None,
+                    1 => Some(if l.bits == 2048 { "VerifHost" } else { HOST }),
+                    2 => Some("otherhost"),
+                    _ => Some(""),
+                };
+                let uri = match ur {
+                    0 => None,
+                    1 => Some(APP_URI),
+                    _ => Some("urn:verif:other"),
+                };
+                let rej_before = rej_path.exists();
+                let tr_before = std::fs::read(&tr_path).ok();
+                let status = l.store.validate_or_reject_application_instance_cert(cert, policy, host, uri);
+                let rej_after = rej_path.exists();
+                let trusted_bytes = std::fs::read(&tr_path).ok();
+                let res = format!("ok {} rej={} tr={}", status.name(), b(rej_after), b(trusted_bytes.is_some()));
+                let class = format!("live-tu{}sv{}ct{}-{}-{}-tm{}ho{}ur{}", b(l.tu), b(l.sv), b(l.ct), pol, l.bits, l.tm, ho, ur);
+                // the property, with the flags as the case last set them one by one
+                let v = if status.is_good() {
+                    let trusted_ok = tr_before.as_deref() == Some(&der[..]) || (tr_before.is_none() && l.tu);
+                    let key_ok = part7_key_ok(pol, l.bits) == Some(true);
+                    let checks_ok = l.sv || ((!l.ct || l.tm == 0) && (ho == 0 || ho == 1) && (ur == 0 || ur == 1));
+                    if rej_before {
+                        Verdict::fail("accepted_only_if", &class, "accepted although it is in the rejected store")
+                    } else if !trusted_ok || trusted_bytes.as_deref() != Some(&der[..]) {
+                        Verdict::fail("accepted_only_if", &class, "accepted although neither trusted byte-identically nor trust-unknown")
+                    } else if !key_ok {
+                        Verdict::fail("accepted_only_if", &class, "accepted with a key length invalid for the policy")
+                    } else if !checks_ok {
+                        Verdict::fail("accepted_only_if", &class, "accepted although the configured validity / host name / URI checks should fail")
+                    } else if rej_after {
+                        Verdict::fail("accepted_never_rejected", &class, "accepted certificate was placed in the rejected store")
+                    } else {
+                        Verdict::Ok
+                    }
+                } else if !rej_before && tr_before.is_none() && !l.tu && !rej_after
+                    && l.store.rejected_certs_dir().exists() && l.store.trusted_certs_dir().exists()
+                {
+                    Verdict::fail("unknown_rejected", &class, "unknown untrusted certificate was not placed in the rejected store")
+                } else {
+                    Verdict::Ok
+                };
+                (res, v)
+            }
             _ => bad(),
         }
     }
@@ -384,6 +568,7 @@ impl Runner for R {
     fn on_panic(&self, toks: &[&str]) -> Verdict {
         match toks {
             ["val" | "vonly" | "val2", _, _, _, _, _, _, _, "none" | "unknown", ..] => Verdict::Ok,
+            ["check", "none" | "unknown", ..] => Verdict::Ok,
             _ => Verdict::fail("no_panic", "-", "implementation panicked"),
         }
     }
